@@ -633,6 +633,7 @@ theorem seqStep_rejected (tg : Target) (isM : Bool) (repl : Nat) (ms ms' : MS) (
   cases st with
   | again => simp [seqStep, pure, Except.pure] at h
   | asFn f => simp [seqStep, pure, Except.pure] at h
+  | holder hm => simp [seqStep, pure, Except.pure] at h
   | lookup name found =>
     simp only [seqStep, Prod.mk.injEq] at h
     obtain ⟨rfl, _⟩ := h
@@ -702,10 +703,10 @@ theorem follow_up_when_count_rejected (s : Sig) (isM : Bool) (w : WS) (args : Op
   simp [whenStep, wWhen, newDefaultMatch, hv, toExpr, h, rStr, rej, bind, Except.bind]
 
 /-- when.go:123 — the same for `In(...)`: a group with the wrong number of conditions is rejected -/
-theorem follow_up_in_count_rejected (s : Sig) (isM : Bool) (w : WS) (g : List V) (h : Bool) (rest : List (List V × Bool))
+theorem follow_up_in_count_rejected (s : Sig) (isM : Bool) (w : WS) (g : List V) (h : Bool) (rest : List (InArg × Bool))
     (hv : s.variadic = false) (hlen : g.length ≠ (inTypes isM s).length) :
-    whenStep s isM w (.in_ ((g, h) :: rest)) = (w, .error ⟨.inCount, [.str]⟩) := by
-  simp [whenStep, wIn, hv, toExpr, hlen, rStr, rej]
+    whenStep s isM w (.in_ ((.list g, h) :: rest)) = (w, .error ⟨.inCount, [.str]⟩) := by
+  simp [whenStep, wIn, inParam, hv, toExpr, hlen, rStr, rej, pure, Except.pure]
 
 /-- **variadic targets**: a later `When` / `Matches` with fewer conditions than FIXED parameters is rejected
     (matcher.go:97-105: the type list keeps all fixed parameters, so `ToExpr`'s count test fails), however many fixed
@@ -719,9 +720,9 @@ theorem follow_up_variadic_too_few_rejected (s : Sig) (isM : Bool) (w : WS) (arg
 
 /-- and the same for `In(...)` on a variadic target (value.go:118) -/
 theorem follow_up_variadic_in_too_few_rejected (s : Sig) (isM : Bool) (w : WS) (g : List V) (h : Bool)
-    (rest : List (List V × Bool)) (hv : s.variadic = true) (hlen : g.length < (inTypes isM s).length - 1) :
-    whenStep s isM w (.in_ ((g, h) :: rest)) = (w, .error ⟨.inCount, [.str]⟩) := by
-  simp [whenStep, wIn, hv, toExprV, hlen, rStr, rej]
+    (rest : List (InArg × Bool)) (hv : s.variadic = true) (hlen : g.length < (inTypes isM s).length - 1) :
+    whenStep s isM w (.in_ ((.list g, h) :: rest)) = (w, .error ⟨.inCount, [.str]⟩) := by
+  simp [whenStep, wIn, inParam, hv, toExprV, hlen, rStr, rej, pure, Except.pure]
 
 example :
     let i : Ty := ⟨.int, 8, 25, false, 0⟩
@@ -767,24 +768,25 @@ theorem bad_apply_keeps_configuration (tg : Target) (isM : Bool) (repl : Nat) (m
 /-- interface mockers (iface.go:112-186): a rejected call never replaces the variable, never changes what the method
     dispatches to nor the `As` function, and — when no `When` existed yet — leaves the mocker exactly as it was, so the
     same ill-fitting stub is rejected again on every retry -/
-theorem ifaceSeqStep_rejected (m : Sig) (s s' : IS) (st : Step) (e : Rej) (h : ifaceSeqStep m s st = (s', .error e)) :
+theorem ifaceMainStep_rejected (m : Sig) (s s' : IS) (st : Step) (e : Rej) (h : ifaceMainStep m s st = (s', .error e)) :
     s'.set = s.set ∧ s'.imp = s.imp ∧ s'.fn = s.fn ∧ (s.when = none → s' = s) := by
   cases st with
-  | again => simp [ifaceSeqStep, pure, Except.pure] at h
-  | asFn f => simp [ifaceSeqStep, pure, Except.pure] at h
+  | again => simp [ifaceMainStep, pure, Except.pure] at h
+  | holder hm => simp [ifaceMainStep, pure, Except.pure] at h
+  | asFn f => simp [ifaceMainStep, pure, Except.pure] at h
   | lookup name found =>
-    simp only [ifaceSeqStep, Prod.mk.injEq] at h
+    simp only [ifaceMainStep, Prod.mk.injEq] at h
     obtain ⟨rfl, _⟩ := h
     exact ⟨rfl, rfl, rfl, fun _ => rfl⟩
   | apply cb =>
-    simp only [ifaceSeqStep] at h
+    simp only [ifaceMainStep] at h
     split at h
     · simp only [Prod.mk.injEq] at h
       obtain ⟨rfl, _⟩ := h
       exact ⟨rfl, rfl, rfl, fun _ => rfl⟩
     · simp [pure, Except.pure] at h
   | ret _ | when_ _ _ | returns _ | andReturn _ | in_ _ | matchPairs _ =>
-    simp only [ifaceSeqStep] at h
+    simp only [ifaceMainStep] at h
     cases hw : s.when with
     | some w =>
       simp only [hw] at h
@@ -803,6 +805,27 @@ theorem ifaceSeqStep_rejected (m : Sig) (s s' : IS) (st : Step) (e : Rej) (h : i
           exact ⟨rfl, rfl, rfl, fun _ => rfl⟩
         · simp [pure, Except.pure] at h
 
+/-- interface mockers (iface.go:112-186), also when the test goes through `Interface(&structHoldingTheVariable)`: a rejected
+    call never replaces the variable, never changes what the method dispatches to nor the `As` function, and — when no `When`
+    existed yet — leaves the mocker exactly as it was, so the same ill-fitting stub is rejected again on every retry -/
+theorem ifaceSeqStep_rejected (m : Sig) (s s' : IS) (st : Step) (e : Rej) (h : ifaceSeqStep m s st = (s', .error e)) :
+    s'.set = s.set ∧ s'.imp = s.imp ∧ s'.fn = s.fn ∧ (s.when = none → s' = s) := by
+  unfold ifaceSeqStep at h
+  split at h
+  · split at h
+    · simp [pure, Except.pure] at h
+    · simp only [Prod.mk.injEq] at h; obtain ⟨rfl, _⟩ := h; exact ⟨rfl, rfl, rfl, fun _ => rfl⟩
+  · split at h
+    · simp only [Prod.mk.injEq] at h; obtain ⟨rfl, _⟩ := h; exact ⟨rfl, rfl, rfl, fun _ => rfl⟩
+    · exact ifaceMainStep_rejected m s s' _ e h
+
+/-- **through the struct that holds the variable nothing is ever installed**: once the test configures via
+    `Interface(&holder)` (a pointer to a non-interface with the variable's address), every configuration call is
+    rejected or leaves the state untouched — the mock of the variable made earlier keeps answering -/
+theorem holder_never_installs (m : Sig) (s : IS) (st : Step) (hv : s.via = true) (hc : isConfigStep st = true) :
+    (ifaceSeqStep m s st).1 = s := by
+  cases st <;> simp [isConfigStep] at hc <;> simp [ifaceSeqStep, hv, isConfigStep]
+
 /-- hence retrying the same rejected first configuration of an interface method gives the same rejection -/
 theorem iface_retry_same (m : Sig) (s s' : IS) (st : Step) (e : Rej) (hw : s.when = none)
     (h : ifaceSeqStep m s st = (s', .error e)) : ifaceSeqStep m s' st = (s', .error e) := by
@@ -813,7 +836,7 @@ theorem iface_retry_same (m : Sig) (s s' : IS) (st : Step) (e : Rej) (hw : s.whe
 example :
     let i : Ty := ⟨.int, 8, 25, false, 0⟩
     let c : Ty := ⟨.ptr, 8, idMockerICtx, false, 0⟩
-    let s0 : IS := ⟨false, none, .none, ⟨[c, i, i], [i], false, i⟩⟩
+    let s0 : IS := ⟨false, none, .none, ⟨[c, i, i], [i], false, i⟩, false⟩
     let r1 := ifaceSeqStep ⟨[i], [i], false, i⟩ s0 (.ret (some [.val i]))
     r1.2 = .error ⟨.illegalParam, [.traceable, .illegalParam, .argsNotMatch 3 2]⟩ ∧
     (ifaceSeqStep ⟨[i], [i], false, i⟩ r1.1 (.ret (some [.val i]))).2 = r1.2 := by
@@ -989,6 +1012,7 @@ theorem seqStep_shape (tg : Target) (isM : Bool) (repl : Nat) (ms ms' : MS) (st 
   cases st with
   | again => simp [seqStep, pure, Except.pure] at h
   | asFn f => simp [seqStep, pure, Except.pure] at h
+  | holder hm => simp [seqStep, pure, Except.pure] at h
   | lookup name found =>
     simp only [seqStep, Prod.mk.injEq] at h
     exact good_lookupCheck _ _ _ h.2
@@ -1027,23 +1051,24 @@ theorem seqStep_shape (tg : Target) (isM : Bool) (repl : Nat) (ms ms' : MS) (st 
             exact applyByFunc_shape _ _ _ _ _ _ _ h1
           · simp [pure, Except.pure] at h
 
-theorem ifaceSeqStep_shape (m : Sig) (s s' : IS) (st : Step) (e : Rej)
-    (h : ifaceSeqStep m s st = (s', .error e)) : e.shape = true := by
+theorem ifaceMainStep_shape (m : Sig) (s s' : IS) (st : Step) (e : Rej)
+    (h : ifaceMainStep m s st = (s', .error e)) : e.shape = true := by
   cases st with
-  | again => simp [ifaceSeqStep, pure, Except.pure] at h
-  | asFn f => simp [ifaceSeqStep, pure, Except.pure] at h
+  | again => simp [ifaceMainStep, pure, Except.pure] at h
+  | asFn f => simp [ifaceMainStep, pure, Except.pure] at h
+  | holder hm => simp [ifaceMainStep, pure, Except.pure] at h
   | lookup name found =>
-    simp only [ifaceSeqStep, Prod.mk.injEq] at h
+    simp only [ifaceMainStep, Prod.mk.injEq] at h
     exact good_lookupCheck _ _ _ h.2
   | apply cb =>
-    simp only [ifaceSeqStep] at h
+    simp only [ifaceMainStep] at h
     split at h
     · rename_i e1 h1
       simp only [Prod.mk.injEq, Except.error.injEq] at h; obtain ⟨_, rfl⟩ := h
       exact good_applyIface _ _ _ _ h1
     · simp [pure, Except.pure] at h
   | ret _ | when_ _ _ | returns _ | andReturn _ | in_ _ | matchPairs _ =>
-    simp only [ifaceSeqStep] at h
+    simp only [ifaceMainStep] at h
     cases hw : s.when with
     | some w =>
       simp only [hw] at h
@@ -1069,6 +1094,31 @@ theorem ifaceSeqStep_shape (m : Sig) (s s' : IS) (st : Step) (e : Rej)
           simp only [Prod.mk.injEq, Except.error.injEq] at h; obtain ⟨_, rfl⟩ := h
           exact good_applyIface _ _ _ _ h1
         · simp [pure, Except.pure] at h
+
+theorem good_holderStep (m fn : Sig) (st : Step) : Good (holderStep m fn st) := by
+  cases st with
+  | apply cb => unfold holderStep; exact good_applyIface _ _ _
+  | ret v => unfold holderStep; exact good_bind _ _ (good_createWS _ _ _ _ _) (fun _ => good_applyIface _ _ _)
+  | when_ a hit => unfold holderStep; exact good_bind _ _ (good_createWS _ _ _ _ _) (fun _ => good_applyIface _ _ _)
+  | returns gs =>
+    unfold holderStep
+    refine good_bind _ _ (good_createWS _ _ _ _ _) (fun w0 => ?_)
+    intro r h
+    split at h
+    · rename_i e1 h1; simp only [Except.error.injEq] at h; subst h; exact wReturns_shape _ _ _ _ _ _ h1
+    · exact good_applyIface _ _ _ r h
+  | andReturn _ | in_ _ | matchPairs _ | again | lookup _ _ | asFn _ | holder _ => unfold holderStep; exact good_pure _
+
+theorem ifaceSeqStep_shape (m : Sig) (s s' : IS) (st : Step) (e : Rej)
+    (h : ifaceSeqStep m s st = (s', .error e)) : e.shape = true := by
+  unfold ifaceSeqStep at h
+  split at h
+  · split at h
+    · simp [pure, Except.pure] at h
+    · simp only [Prod.mk.injEq, rStr, rej, Except.error.injEq] at h; obtain ⟨_, rfl⟩ := h; rfl
+  · split at h
+    · simp only [Prod.mk.injEq] at h; exact good_holderStep _ _ _ _ h.2
+    · exact ifaceMainStep_shape m s s' _ e h
 
 /-- every way a configuration call of the model can be rejected -/
 inductive Produced : Rej → Prop
